@@ -124,16 +124,28 @@ func (sel *Selection) makeCopy() (*Selection, error) {
 }
 
 func (sel *Selection) selekt(r *ChildRequest) (*Selection, error) {
+	child, _, err := sel.selektVisible(r)
+	return child, err
+}
+
+// selektVisible is selekt that tells a child that is not there (nil, false) from one that is
+// there but hidden by a constraint, such as a when that is false (nil, true)
+func (sel *Selection) selektVisible(r *ChildRequest) (*Selection, bool, error) {
+	child, hidden, err := sel.selektHidden(r)
+	return child, hidden, err
+}
+
+func (sel *Selection) selektHidden(r *ChildRequest) (*Selection, bool, error) {
 	// check pre-constraints
 	if proceed, constraintErr := sel.Constraints.CheckContainerPreConstraints(r); !proceed || constraintErr != nil {
-		return nil, constraintErr
+		return nil, false, constraintErr
 	}
 
 	// select node
 	var child *Selection
 	childNode, err := sel.Node.Child(*r)
 	if err != nil || childNode == nil {
-		return nil, err
+		return nil, false, err
 	}
 	child = &Selection{
 		Browser:     sel.Browser,
@@ -148,10 +160,10 @@ func (sel *Selection) selekt(r *ChildRequest) (*Selection, error) {
 
 	// check post-constraints
 	if proceed, constraintErr := sel.Constraints.CheckContainerPostConstraints(*r, child); !proceed || constraintErr != nil {
-		return nil, constraintErr
+		return nil, constraintErr == nil, constraintErr
 	}
 
-	return child, nil
+	return child, false, nil
 }
 
 type ListItem struct {
